@@ -37,6 +37,27 @@ COUNTERS = [
 ]
 
 
+def packer_loads(ctx, rid, cls):
+    """stream._UpConverter / Pack: the lane registers of the wide word load only with the sink handshake (shared with C10: a lane
+    loaded on sink.valid alone overwrites lane 0 of a wide beat that is still waiting for WREADY / RREADY)."""
+    fx = fx_of(ctx, STREAM, cls)
+    inl = q.Inliner(fx)
+    fr = inl.formula_of_path("self.sink.ready")
+    ctx.need(fr is not None, f"{rid}: {cls}.sink.ready not comb-driven")
+    Vs = B.A("self.sink.valid")
+    lp = inl.formula_of_path("load_part")
+    ok = lp is not None and B.equivalent(lp, B.And(Vs, fr))
+    ctx.ob(rid, STREAM, cls, "load_part == sink.valid & sink.ready", ok,
+           "" if ok else f"load_part = {B.show(lp) if lp else '?'} is not the sink handshake")
+    # every data/param load is under load_part
+    for a in fx.find(domain="sync"):
+        if under(a.t, "self.source") and any(under(p, "self.sink") for p in q.paths(a.value)):
+            G = q.gformula(fx, a)
+            ok = B.entails(G, B.And(Vs, fr))
+            ctx.ob(rid, STREAM, cls, f"load {short(a.t, 40)} => accepted", ok,
+                   "" if ok else f"{a.t} loads under {B.show(G)} without the sink handshake", a.line)
+
+
 def run(ctx):
     ctx.rule("S1", "nothing altered between presentation and hand-over: every sync assignment to a registered source field has a "
                    "guard that entails ~source.valid | source.ready (same instances as C04.S1)", min_sites=28)
@@ -167,23 +188,20 @@ def run(ctx):
                    "" if ok else f"sink.ready = {B.show(fr)} but the register loads under {B.show(G)}: a token can be "
                                  f"accepted and not stored, or stored and not accepted")
         elif cls in ("_UpConverter", "Pack"):
-            lp = inl.formula_of_path("load_part")
-            ok = lp is not None and B.equivalent(lp, B.And(Vs, fr))
-            ctx.ob("S8", STREAM, cls, "load_part == sink.valid & sink.ready", ok,
-                   "" if ok else f"load_part = {B.show(lp) if lp else '?'} is not the sink handshake")
-            # every data/param load is under load_part
-            for a in fx.find(domain="sync"):
-                if under(a.t, "self.source") and any(under(p, "self.sink") for p in q.paths(a.value)):
-                    G = q.gformula(fx, a)
-                    ok = B.entails(G, B.And(Vs, fr))
-                    ctx.ob("S8", STREAM, cls, f"load {short(a.t, 40)} => accepted", ok,
-                           "" if ok else f"{a.t} loads under {B.show(G)} without the sink handshake", a.line)
+            packer_loads(ctx, "S8", cls)
         else:   # PipeReady
             loads = fx.find(domain="sync", target="sink_d")
             G = B.Or(*[q.gformula(fx, a) for a in loads]) if loads else B.F
             ok = B.entails(B.And(Vs, fr), B.Or(B.A("self.source.ready"), G))
             ctx.ob("S8", STREAM, cls, "accepted => forwarded or stored", ok,
                    "" if ok else f"a token accepted while source.ready=0 is not stored (load guard {B.show(G)})")
+
+    # ---- S16 (shared with C04 / C05): the stages of a ClockDomainCrossing run in the domains of the stream they carry
+    ctx.rule("S16", "stream.ClockDomainCrossing: every clocked stage runs in the domain of the stream it carries (same-domain buffer renamed "
+                    "onto cd_from, FIFO sides onto cd_from / cd_to): a register clocked by `sys` under a faster stream drops and duplicates "
+                    "accepted tokens", min_sites=3)
+    from .c05 import crossing_stage_domains
+    crossing_stage_domains(ctx, "S16")
 
     # ---- S5 wiring
     for cls in ("PipeReady", "Converter", "ClockDomainCrossing", "Gate", "Multiplexer", "Demultiplexer", "_IdentityConverter"):
